@@ -167,11 +167,14 @@ NatureOK(c, s, isProto) ==
     [] OTHER -> s.nat = c.nat
 
 MockJudged(t) == t.mockok = "yes"
+\* the client module imports: APIClient's properties are known and methods are mapped to operations by their requests.
+\* Otherwise (status "noimport") only the emitted text of the three classes is compared.
+Wired(t) == t.status = "ok"
 
 MethodParity(t, cl, me) ==
   LET pos == IF Len(me.ops) = 0 THEN 0 ELSE TagPos(t.ops[me.ops[1]], cl.key) IN
   (IF cl.proto = "yes" /\ ~me.p.has THEN {[clause |-> "C13.method_missing", locus |-> [side |-> "protocol", tagpos |-> pos, variants |-> Variants(t.ops, cl.key)]]} ELSE {})
-  \cup (IF MockJudged(t) /\ cl.mock = "yes" /\ ~me.m.has THEN {[clause |-> "C13.method_missing", locus |-> [side |-> "mock", tagpos |-> pos, variants |-> Variants(t.ops, cl.key)]]} ELSE {})
+  \cup (IF MockJudged(t) /\ Wired(t) /\ cl.mock = "yes" /\ ~me.m.has THEN {[clause |-> "C13.method_missing", locus |-> [side |-> "mock", tagpos |-> pos, variants |-> Variants(t.ops, cl.key)]]} ELSE {})
   \cup (IF cl.proto = "yes" /\ me.p.has /\ SideDiff(me.c, me.p) # ""
           THEN {[clause |-> "C13.signature_differs", locus |-> [side |-> "protocol", element |-> SideDiff(me.c, me.p)]]} ELSE {})
   \cup (IF MockJudged(t) /\ cl.mock = "yes" /\ me.m.has /\ SideDiff(me.c, me.m) # ""
@@ -191,7 +194,7 @@ ClientParity(t, cl) ==
   \cup (IF cl.proto = "unparsable" THEN {[clause |-> "C13.signature_differs", locus |-> [side |-> "protocol", element |-> "unparsable"]]} ELSE {})
   \cup (IF MockJudged(t) /\ cl.mock = "no" THEN {[clause |-> "C13.mock_class_missing", locus |-> [tagpos |-> pos, variants |-> Variants(t.ops, cl.key)]]} ELSE {})
   \cup (IF MockJudged(t) /\ cl.mock = "unparsable" THEN {[clause |-> "C13.signature_differs", locus |-> [side |-> "mock", element |-> "unparsable"]]} ELSE {})
-  \cup (IF MockJudged(t) /\ cl.reachable /\ cl.prop \notin ToSet(t.mockprops)
+  \cup (IF MockJudged(t) /\ Wired(t) /\ cl.reachable /\ cl.prop \notin ToSet(t.mockprops)
           THEN {[clause |-> "C13.apiclient_property_missing", locus |-> [side |-> "mock", tagpos |-> pos, variants |-> Variants(t.ops, cl.key)]]} ELSE {})
   \cup UNION {MethodParity(t, cl, cl.methods[m]) : m \in DOMAIN cl.methods}
   \cup {[clause |-> "C13.method_missing", locus |-> [side |-> "client", tagpos |-> 0, variants |-> Variants(t.ops, cl.key), from |-> "protocol"]] : n \in ToSet(cl.pextra)}
@@ -203,7 +206,7 @@ ClientParity(t, cl) ==
 JudgeC13(t) ==
   IF t.status \notin {"ok", "noimport"} THEN {}
   ELSE UNION {ClientParity(t, t.clients[c]) : c \in DOMAIN t.clients}
-       \cup (IF MockJudged(t) THEN {[clause |-> "C13.apiclient_property_missing", locus |-> [side |-> "api", tagpos |-> 0, variants |-> \E k \in AllClasses(t.ops) : Variants(t.ops, k)]] :
+       \cup (IF MockJudged(t) /\ Wired(t) THEN {[clause |-> "C13.apiclient_property_missing", locus |-> [side |-> "api", tagpos |-> 0, variants |-> \E k \in AllClasses(t.ops) : Variants(t.ops, k)]] :
                                       p \in ToSet(t.mockprops) \ ToSet(t.apiprops)} ELSE {})
 
 AnteC13(t) ==
